@@ -408,6 +408,34 @@ impl Typer {
             ));
         }
         self.constraints = constraints;
+
+        // Built-in arithmetic is defined on the numeric types (and `+` on strings); an operand
+        // whose type is still open, or a type parameter, is left to its instantiation.
+        for (op, allow_string, ty) in std::mem::take(&mut self.arithmetic_operands) {
+            let ty = self.norm(&ty);
+            let defined = match &ty {
+                tast::Ty::TVar(..) | tast::Ty::TParam { .. } => true,
+                tast::Ty::TInt8
+                | tast::Ty::TInt16
+                | tast::Ty::TInt32
+                | tast::Ty::TInt64
+                | tast::Ty::TUint8
+                | tast::Ty::TUint16
+                | tast::Ty::TUint32
+                | tast::Ty::TUint64
+                | tast::Ty::TFloat32
+                | tast::Ty::TFloat64 => true,
+                tast::Ty::TString => allow_string,
+                _ => false,
+            };
+            if !defined {
+                diagnostics.push(Diagnostic::new(
+                    Stage::Typer,
+                    Severity::Error,
+                    format!("Operator `{}` is not defined for operands of type {:?}", op, ty),
+                ));
+            }
+        }
     }
 
     fn norm(&mut self, ty: &tast::Ty) -> tast::Ty {
